@@ -606,7 +606,6 @@ structure ClipInv (big : K) (P : K → Prop) (nearOK farOK : Int → K → Prop)
   lo : -big ≤ st.tmin
   hi : st.tmax ≤ big
   le : st.tmin ≤ st.tmax
-  nn : 0 ≤ st.tmax
   nside : (st.nearSide = 0 ∧ st.tmin = -big) ∨ nearOK st.nearSide st.tmin
   fside : (st.farSide = 0 ∧ st.tmax = big) ∨ farOK st.farSide st.tmax
 
@@ -641,7 +640,7 @@ theorem clipStep_eq (i : Nat) (mn mx o d : K) (st : ClipSt K) :
         let n0 := (mn - o) * (1 / d); let f0 := (mx - o) * (1 / d)
         let flip : Bool := decide (f0 < n0)
         let st2 := updFar sq i flip (if flip then n0 else f0) (updNear sq i flip (if flip then f0 else n0) st)
-        if st2.tmax < 0 ∨ st2.tmax < st2.tmin then none else some st2 := rfl
+        if st2.tmax < st2.tmin then none else some st2 := rfl
 
 theorem updNear_spec (i : Nat) (flip : Bool) (near : K) (st : ClipSt K) :
     (updNear sq i flip near st).tmin = max st.tmin near ∧ (updNear sq i flip near st).tmax = st.tmax ∧
@@ -690,7 +689,7 @@ theorem clipStep_some (big : K) (i : Nat) (mn mx o d : K) (hbox : mn < mx) (P : 
     · intro h'; cases h'
     · intro h'; cases h'
       push Not at h
-      refine ⟨fun s hs hsb => ?_, hinv.lo, hinv.hi, hinv.le, hinv.nn, hinv.nside, hinv.fside⟩
+      refine ⟨fun s hs hsb => ?_, hinv.lo, hinv.hi, hinv.le, hinv.nside, hinv.fside⟩
       rw [← hinv.iff s hs hsb]
       unfold SlabMem; rw [hd]; simp only [zero_mul, add_zero]
       exact ⟨fun h' => h'.1, fun h' => ⟨h', h.1, h.2⟩⟩
@@ -730,7 +729,7 @@ theorem clipStep_some (big : K) (i : Nat) (mn mx o d : K) (hbox : mn < mx) (P : 
       push Not at h
       have e1 : st'.tmin = max st.tmin near := by rw [b2, a1]
       have e2 : st'.tmax = min st.tmax far := by rw [b1, a2]
-      refine ⟨fun s hs0 hsb => ?_, ?_, ?_, h.2, h.1, ?_, ?_⟩
+      refine ⟨fun s hs0 hsb => ?_, ?_, ?_, h, ?_, ?_⟩
       · rw [hinv.iff s hs0 hsb, hslab s, e1, e2]
         simp only [max_le_iff, le_min_iff]; tauto
       · rw [e1]; exact le_trans hinv.lo (le_max_left _ _)
@@ -746,7 +745,7 @@ theorem clipStep_some (big : K) (i : Nat) (mn mx o d : K) (hbox : mn < mx) (P : 
 theorem clipStep_none (big : K) (i : Nat) (mn mx o d : K) (hbox : mn < mx) (P : K → Prop) (nearOK farOK : Int → K → Prop)
     (st : ClipSt K) (hinv : ClipInv big P nearOK farOK st) :
     letI := fieldNum K sq
-    clipStep i mn mx o d st = none → ∀ s, 0 ≤ s → s ≤ big → ¬ (P s ∧ SlabMem mn mx o d s) := by
+    clipStep i mn mx o d st = none → ∀ s, -big ≤ s → s ≤ big → ¬ (P s ∧ SlabMem mn mx o d s) := by
   rw [clipStep_eq]
   by_cases hd : d = 0
   · have : @neq K (fieldNum K sq) d 0 = true := (neq_zero_iff sq d).2 hd
@@ -778,14 +777,14 @@ theorem clipStep_none (big : K) (i : Nat) (mn mx o d : K) (hbox : mn < mx) (P : 
     generalize updFar sq i flip far st1 = st2 at *
     split_ifs with h
     · intro _ s hs0 hsb ⟨hp, hsl⟩
-      rw [hinv.iff s (le_trans (neg_nonpos.2 (le_trans hs0 hsb)) hs0) hsb] at hp
+      rw [hinv.iff s hs0 hsb] at hp
       rw [hslab s] at hsl
       have e1 : st2.tmin = max st.tmin near := by rw [b2, a1]
       have e2 : st2.tmax = min st.tmax far := by rw [b1, a2]
       have h1 : max st.tmin near ≤ s := max_le hp.1 hsl.1
       have h2 : s ≤ min st.tmax far := le_min hp.2 hsl.2
       rw [e1, e2] at h
-      rcases h with h | h <;> linarith
+      linarith
     · intro h'; cases h'
 
 
@@ -802,7 +801,7 @@ def FarOK (b : Aabb K) (ray : Ray3 K) (side : Int) (t : K) : Prop :=
 
 theorem ClipInv.congr {big : K} {P Q : K → Prop} {n f : Int → K → Prop} {st : ClipSt K} (h : ClipInv big P n f st)
     (hpq : ∀ s, P s ↔ Q s) : ClipInv big Q n f st :=
-  ⟨fun s a b => (hpq s).symm.trans (h.iff s a b), h.lo, h.hi, h.le, h.nn, h.nside, h.fside⟩
+  ⟨fun s a b => (hpq s).symm.trans (h.iff s a b), h.lo, h.hi, h.le, h.nside, h.fside⟩
 
 /-- the three iterations of `clip_aabb_line` -/
 theorem clip_fold (big : K) (b : Aabb K) (ray : Ray3 K) (hv : AabbStrict b) (hbig : 0 ≤ big) :
@@ -815,11 +814,11 @@ theorem clip_fold (big : K) (b : Aabb K) (ray : Ray3 K) (hv : AabbStrict b) (hbi
       (∃ s0, clipStep 0 b.mins.x b.maxs.x ray.o.x ray.d.x st0 = some s0 ∧
         (clipStep 1 b.mins.y b.maxs.y ray.o.y ray.d.y s0 = none ∨
          ∃ s1, clipStep 1 b.mins.y b.maxs.y ray.o.y ray.d.y s0 = some s1 ∧ clipStep 2 b.mins.z b.maxs.z ray.o.z ray.d.z s1 = none))) ∧
-      ∀ s, 0 ≤ s → s ≤ big → ¬ AabbMem b (rayPt sq ray s)) := by
+      ∀ s, -big ≤ s → s ≤ big → ¬ AabbMem b (rayPt sq ray s)) := by
   intro st0
   obtain ⟨vx, vy, vz⟩ := hv
   have i0 : ClipInv big (fun _ => True) (NearOK b ray) (FarOK b ray) st0 :=
-    ⟨fun s a c => ⟨fun _ => ⟨a, c⟩, fun _ => trivial⟩, le_refl _, le_refl _, by show -big ≤ big; linarith, hbig,
+    ⟨fun s a c => ⟨fun _ => ⟨a, c⟩, fun _ => trivial⟩, le_refl _, le_refl _, by show -big ≤ big; linarith,
       Or.inl ⟨rfl, rfl⟩, Or.inl ⟨rfl, rfl⟩⟩
   have nx : ∀ side t, NearFace 0 b.mins.x b.maxs.x ray.o.x ray.d.x side t → NearOK b ray side t := fun _ _ h => Or.inl h
   have ny : ∀ side t, NearFace 1 b.mins.y b.maxs.y ray.o.y ray.d.y side t → NearOK b ray side t := fun _ _ h => Or.inr (Or.inl h)
@@ -853,19 +852,20 @@ theorem clip_fold (big : K) (b : Aabb K) (ray : Ray3 K) (hv : AabbStrict b) (hbi
 /-- the near/far normals written by `clip_aabb_line` from the final loop state -/
 def clipNearN (d : V3 K) (s : ClipSt K) : V3 K :=
   letI := fieldNum K sq
-  if s.nearDiag then d.normalize.neg else if s.nearSide < 0 then axisVec (-s.nearSide - 1) 1 else axisVec (s.nearSide - 1) (-1)
+  if s.nearDiag then d.normalize.neg else if s.nearSide < 0 then axisVec (-s.nearSide - 1) 1
+  else if 0 < s.nearSide then axisVec (s.nearSide - 1) (-1) else V3.zero
 def clipFarN (d : V3 K) (s : ClipSt K) : V3 K :=
   letI := fieldNum K sq
-  if s.farDiag then d.normalize.neg else if s.farSide < 0 then axisVec (-s.farSide - 1) (-1) else axisVec (s.farSide - 1) 1
+  if s.farDiag then d.normalize.neg else if s.farSide < 0 then axisVec (-s.farSide - 1) (-1)
+  else if 0 < s.farSide then axisVec (s.farSide - 1) 1 else V3.zero
 
 /-- `clip_aabb_line` in terms of the final loop state -/
 theorem clip_cases (big : K) (b : Aabb K) (ray : Ray3 K) (hv : AabbStrict b) (hbig : 0 ≤ big) :
     letI := fieldNum K sq
     (∃ st : ClipSt K, ClipInv big (fun s => AabbMem b (rayPt sq ray s)) (NearOK b ray) (FarOK b ray) st ∧
       clipAabbLine big b ray.o ray.d =
-        (if ((!st.nearDiag && st.nearSide == 0) || (!st.farDiag && st.farSide == 0)) = true then ClipRes.panic
-         else ClipRes.some ⟨st.tmin, clipNearN sq ray.d st, st.nearSide⟩ ⟨st.tmax, clipFarN sq ray.d st, st.farSide⟩)) ∨
-    (clipAabbLine big b ray.o ray.d = ClipRes.none ∧ ∀ s, 0 ≤ s → s ≤ big → ¬ AabbMem b (rayPt sq ray s)) := by
+        ClipRes.some ⟨st.tmin, clipNearN sq ray.d st, st.nearSide⟩ ⟨st.tmax, clipFarN sq ray.d st, st.farSide⟩) ∨
+    (clipAabbLine big b ray.o ray.d = ClipRes.none ∧ ∀ s, -big ≤ s → s ≤ big → ¬ AabbMem b (rayPt sq ray s)) := by
   rcases clip_fold sq big b ray hv hbig with ⟨s0, s1, st, h0, h1, h2, inv⟩ | ⟨hnone, hno⟩
   · refine Or.inl ⟨st, inv, ?_⟩
     simp only [clipAabbLine, h0, h1, h2, clipNearN, clipFarN]
@@ -894,51 +894,49 @@ theorem clipNearN_outward (b : Aabb K) (ray : Ray3 K) (st : ClipSt K) (hd : st.n
   rcases h with h | h | h <;> rcases h with ⟨hs, hdd, hp⟩ | ⟨hs, hdd, hp⟩ <;> rw [hs] <;>
     simp only [OutwardFaceNormal, ptx, pty, ptz, hp, axisVec] <;> norm_num <;> simp [hdd]
 
-/-- `Aabb::cast_local_ray_and_get_normal` in terms of the final loop state of `clip_aabb_line` (non-panicking case) -/
-theorem aabbN_cases (big : K) (b : Aabb K) (ray : Ray3 K) (max : K) (solid : Bool) (hv : AabbStrict b) (hbig : 0 ≤ big)
-    (r : Option (Hit3 K)) :
+/-- `Aabb::cast_local_ray_and_get_normal` (`ray_aabb` over `clip_aabb_line`) in terms of the final loop state -/
+theorem aabbN_cases (big : K) (b : Aabb K) (ray : Ray3 K) (max : K) (solid : Bool) (hv : AabbStrict b) (hbig : 0 ≤ big) :
     letI := fieldNum K sq
-    b.castLocalRayAndGetNormal big ray max solid = some r →
+    let r := b.castLocalRayAndGetNormal big ray max solid
     (∃ st : ClipSt K, ClipInv big (fun s => AabbMem b (rayPt sq ray s)) (NearOK b ray) (FarOK b ray) st ∧
-      ((st.nearDiag = false → st.nearSide ≠ 0) ∧ (st.farDiag = false → st.farSide ≠ 0)) ∧
-      ((st.tmin < 0 ∧ solid = true ∧ ∃ h, r = some h ∧ h.toi = 0) ∨
-       (st.tmin < 0 ∧ solid = false ∧ st.tmax ≤ max ∧ ∃ h, r = some h ∧ h.toi = st.tmax ∧ h.n = clipFarN sq ray.d st) ∨
-       (st.tmin < 0 ∧ solid = false ∧ max < st.tmax ∧ r = none) ∨
-       (0 ≤ st.tmin ∧ st.tmin ≤ max ∧ ∃ h, r = some h ∧ h.toi = st.tmin ∧ h.n = clipNearN sq ray.d st) ∨
-       (0 ≤ st.tmin ∧ max < st.tmin ∧ r = none))) ∨
-    (r = none ∧ ∀ s, 0 ≤ s → s ≤ big → ¬ AabbMem b (rayPt sq ray s)) := by
-  intro hres
+      ((st.tmax < 0 ∧ r = none) ∨
+       (0 ≤ st.tmax ∧ st.tmin < 0 ∧ solid = true ∧ ∃ h, r = some h ∧ h.toi = 0) ∨
+       (0 ≤ st.tmax ∧ st.tmin < 0 ∧ solid = false ∧ st.tmax ≤ max ∧ ∃ h, r = some h ∧ h.toi = st.tmax ∧ h.n = clipFarN sq ray.d st) ∨
+       (0 ≤ st.tmax ∧ st.tmin < 0 ∧ solid = false ∧ max < st.tmax ∧ r = none) ∨
+       (0 ≤ st.tmax ∧ 0 ≤ st.tmin ∧ st.tmin ≤ max ∧ ∃ h, r = some h ∧ h.toi = st.tmin ∧ h.n = clipNearN sq ray.d st) ∨
+       (0 ≤ st.tmax ∧ 0 ≤ st.tmin ∧ max < st.tmin ∧ r = none))) ∨
+    (r = none ∧ ∀ s, -big ≤ s → s ≤ big → ¬ AabbMem b (rayPt sq ray s)) := by
+  intro r
   rcases clip_cases sq big b ray hv hbig with ⟨st, inv, hclip⟩ | ⟨hclip, hno⟩
-  · simp only [Aabb.castLocalRayAndGetNormal, hclip] at hres
-    by_cases hp : ((!st.nearDiag && st.nearSide == 0) || (!st.farDiag && st.farSide == 0)) = true
-    · rw [if_pos hp] at hres; cases hres
-    · rw [if_neg hp] at hres
-      simp only at hres
-      refine Or.inl ⟨st, inv, ?_, ?_⟩
-      · simp only [Bool.or_eq_true, Bool.and_eq_true, Bool.not_eq_true', beq_iff_eq, not_or, not_and] at hp
-        exact ⟨fun h => hp.1 h, fun h => hp.2 h⟩
-      · by_cases h1 : st.tmin < 0
-        · rw [if_pos h1] at hres
-          cases solid with
-          | true =>
-            simp only [if_true, Option.some.injEq] at hres
-            exact Or.inl ⟨h1, rfl, _, hres.symm, rfl⟩
-          | false =>
-            simp only [Bool.false_eq_true, if_false] at hres
-            by_cases h2 : st.tmax ≤ max
-            · rw [if_pos h2] at hres; simp only [Option.some.injEq] at hres
-              exact Or.inr (Or.inl ⟨h1, rfl, h2, _, hres.symm, rfl, rfl⟩)
-            · rw [if_neg h2] at hres; simp only [Option.some.injEq] at hres
-              exact Or.inr (Or.inr (Or.inl ⟨h1, rfl, not_le.1 h2, hres.symm⟩))
-        · rw [if_neg h1] at hres
-          by_cases h2 : st.tmin ≤ max
-          · rw [if_pos h2] at hres; simp only [Option.some.injEq] at hres
-            exact Or.inr (Or.inr (Or.inr (Or.inl ⟨not_lt.1 h1, h2, _, hres.symm, rfl, rfl⟩)))
-          · rw [if_neg h2] at hres; simp only [Option.some.injEq] at hres
-            exact Or.inr (Or.inr (Or.inr (Or.inr ⟨not_lt.1 h1, not_le.1 h2, hres.symm⟩)))
-  · simp only [Aabb.castLocalRayAndGetNormal, hclip, Option.some.injEq] at hres
-    exact Or.inr ⟨hres.symm, hno⟩
-
+  · refine Or.inl ⟨st, inv, ?_⟩
+    have hr : r = @Aabb.castLocalRayAndGetNormal K (fieldNum K sq) big b ray max solid := rfl
+    simp only [Aabb.castLocalRayAndGetNormal, hclip] at hr
+    by_cases h0 : st.tmax < 0
+    · rw [if_pos h0] at hr; exact Or.inl ⟨h0, hr⟩
+    · rw [if_neg h0] at hr
+      have h0' : 0 ≤ st.tmax := not_lt.1 h0
+      by_cases h1 : st.tmin < 0
+      · rw [if_pos h1] at hr
+        cases solid with
+        | true =>
+          simp only [if_true] at hr
+          exact Or.inr (Or.inl ⟨h0', h1, rfl, _, hr, rfl⟩)
+        | false =>
+          simp only [Bool.false_eq_true, if_false] at hr
+          by_cases h2 : st.tmax ≤ max
+          · rw [if_pos h2] at hr
+            exact Or.inr (Or.inr (Or.inl ⟨h0', h1, rfl, h2, _, hr, rfl, rfl⟩))
+          · rw [if_neg h2] at hr
+            exact Or.inr (Or.inr (Or.inr (Or.inl ⟨h0', h1, rfl, not_le.1 h2, hr⟩)))
+      · rw [if_neg h1] at hr
+        by_cases h2 : st.tmin ≤ max
+        · rw [if_pos h2] at hr
+          exact Or.inr (Or.inr (Or.inr (Or.inr (Or.inl ⟨h0', not_lt.1 h1, h2, _, hr, rfl, rfl⟩))))
+        · rw [if_neg h2] at hr
+          exact Or.inr (Or.inr (Or.inr (Or.inr (Or.inr ⟨h0', not_lt.1 h1, not_le.1 h2, hr⟩))))
+  · refine Or.inr ⟨?_, hno⟩
+    show @Aabb.castLocalRayAndGetNormal K (fieldNum K sq) big b ray max solid = none
+    simp only [Aabb.castLocalRayAndGetNormal, hclip]
 
 /-! ## segment (2-D) helpers -/
 
